@@ -23,8 +23,23 @@ class ChoiceRandom:
     selection honouring the documented contract (sample: k distinct elements
     in some order; shuffle: some permutation), chosen by the explorer."""
 
+    @staticmethod
+    def _canon(pool):
+        """candidates in an order that does not depend on the order the
+        database returned rows in, so that a recorded selection picks the
+        same candidates when replayed on the other back end"""
+        def key(aro):
+            return (sorted((str(s), sorted(u)) for s, u in
+                           aro.mappings.items()),
+                    sorted((rr.resource_provider.uuid, rr.resource_class)
+                           for rr in aro.resource_requests))
+        try:
+            return sorted(pool, key=key)
+        except Exception:
+            return pool
+
     def sample(self, population, k):
-        pool = list(population)
+        pool = self._canon(list(population))
         out = []
         for _ in range(k):
             i = symex.choose(len(pool))
@@ -33,6 +48,14 @@ class ChoiceRandom:
 
     def shuffle(self, x):
         pool = list(x)
+        if len(pool) > 4:
+            # n! orders: beyond 4 elements three representatives (as is,
+            # reversed, rotated by one).  Every clause about a shuffled
+            # list compares it as a set, so its order is immaterial; the
+            # selections of random.sample stay exhaustive.
+            k = symex.choose(3)
+            x[:] = (pool, pool[::-1], pool[1:] + pool[:1])[k]
+            return
         out = []
         while pool:
             out.append(pool.pop(symex.choose(len(pool))))
@@ -73,7 +96,9 @@ def entry_eq(a, b):
                  for k in a['alloc']])
 
 
-def make_family(tname, qname, query, randomize, usage=False):
+def make_family(tname, qname, query, randomize, usage=False, max_limit=None):
+    """max_limit: only limits up to this value (randomised families over
+    many candidates: the selections of limit N number M!/(M-N)!)"""
     topo = c03.TOPOS[tname]
 
     def path(ctx):
@@ -117,6 +142,8 @@ def make_family(tname, qname, query, randomize, usage=False):
                     tuple(int(x) for x in query.version.split('.')) < (1, 34)
                     and len([g for g in query.groups if g]) >= 2)
                 limits = list(range(1, M + 2))
+                if max_limit is not None:
+                    limits = [n for n in limits if n <= max_limit]
                 if randomize:
                     # one limit per path (an explorer decision): the
                     # selections of different limits add up instead of
@@ -169,7 +196,8 @@ def make_family(tname, qname, query, randomize, usage=False):
                                 'ordered'), path,
                   bounds=dict(topology=topo.parents, query=qname,
                               randomize=randomize,
-                              limits='1..M+1'))
+                              limits='1..M+1' if max_limit is None else
+                              '1..%d' % max_limit))
 
 
 def families(tier):
@@ -188,7 +216,11 @@ def families(tier):
              ('two-i', '1+2-isolate', False), ('tree', 'u+1-none', False),
              ('two', 'u-vcpu-disk', True),
              ('flat', 'u-disk', False), ('flat', '1-disk', False),
-             ('two-i', '1+2-isolate@1.33', False)]
+             ('two-i', '1+2-isolate@1.33', False),
+             ('three-vf', '1+2-isolate@1.33', False),
+             # every selection of up to two of the (up to six) candidates:
+             # independent of the hash-dependent order of the full list
+             ('three-vf', '1+2-isolate@1.33', True, 2)]
     extra = [('tree', 'u-vcpu-disk', False), ('tree', 'u-vcpu-disk', True),
              ('tree', 'u-vcpu-disk@1.28', True),
              ('two', 'u-vcpu-disk@1.28', False),
@@ -197,9 +229,12 @@ def families(tier):
              ('tree', 'u+1-none', True), ('two-i', '1+2-isolate', True),
              ('flat-a', 'u-member', False), ('tree-t', 'u-req', True),
              ('two-i', '1+2-isolate@1.33', True),
-             ('tree', '1+2-isolate@1.33', False)]
+             ('tree', '1+2-isolate@1.33', False),
+             ('three-vf', '1+2-isolate@1.33', True, 3),
+             ('three-vf', '1+2-isolate', False)]
     tr = quick if tier == 'quick' else quick + extra
-    return [make_family(t, q, qs[q], r) for t, q, r in tr]
+    return [make_family(x[0], x[1], qs[x[1]], x[2], False, *x[3:])
+            for x in tr]
 
 
 if __name__ == '__main__':
